@@ -14,6 +14,8 @@
        WITHOUT a PDec: the counter keeps counting its cluster - the next PDispatch reports, under the
        counter's mutex, exactly counter + 1, which is how the trace sees that nothing was decremented;
      - the main thread fails only once the writer has left;
+     - "fail" only after the writer has left, or after the whole pipeline has ended (the failing write then
+       belongs to a later phase of the pack: header, tables, check info);
      - "ok" only from the state the fault-free machine ends in; "hang" only in the state Stuck of
        PipelineFaults (main waiting for room, counter at its bound, every worker dead): a hang anywhere
        else is not explained by the model.
@@ -52,7 +54,7 @@ TraceOutcome ==
   /\ IsEvent("Outcome")
   /\ LET s == Rec[l].status IN
        (\/ s = "ok" /\ writerDone /\ ~wfail /\ dead = {}
-        \/ s = "fail" /\ wfail
+        \/ s = "fail" /\ (wfail \/ writerDone)      \* (writerDone: the pipeline ended well, a later write of the pack failed)
         \/ s = "hang" /\ wfail /\ mainSt = "run" /\ ~closed /\ inQueue >= maxQ /\ Cardinality(dead) = W) = TRUE    \* PipelineFaults!Stuck
   /\ UNCHANGED ftvars_but_l
 
